@@ -16,7 +16,7 @@ def run(run):
     sets.append(("corpus-F2", [spec.encode(0, f, ()) for f in range(12)] + [0]))
     sets.append(("corpus-F3", spec.children(spec.encode(0, 0, ())) + [spec.encode(0, f, ()) for f in range(1, 12)]))
     sets.append(("empty", []))
-    n = 150 if quick else 5000
+    n = run.n(150, 5000)
     for _ in range(n):
         m = rng.random()
         if m < 0.4:
